@@ -37,9 +37,10 @@ Proof.
         specialize (I Hm Hc). destruct I. constructor; prep; useG G.
         all: t_some_rb s; t_Dn s; t_Dd s.
         split; [intros k Hk; eapply subset_In; eauto |]. intros _.
-        apply orb_true_iff in C7. destruct C7 as [C7 | C7].
-        -- b2p. rewrite <- C7. apply t_pcok. lia.
-        -- unfold async_kept in C7. b2p. destruct Hc as [A _]. unf2. congruence.
+        match goal with Hx : (cn _ FPcOk =? _) || async_kept _ = true |- _ =>
+          apply orb_true_iff in Hx; destruct Hx as [C7' | C7'] end.
+        -- b2p. rewrite <- C7'. apply t_pcok. lia.
+        -- unfold async_kept in C7'. b2p. destruct Hc as [A _]. unf2. congruence.
   - okinv H. apply fb_false in Hh. split.
     + constructor; prep; useG G.
     + intros Hh'. unf2. rd. congruence.
@@ -82,6 +83,7 @@ Ltac t_negok s T I' :=
 Lemma own_rb_send : forall s s' r T ks, invT s T -> stepr s (ERbSend r T ks) = Ok s' -> invT s' T.
 Proof.
   intros s s' r T ks [G I] H. cbn [stepr] in H. unfold step_rb_send in H. chks H. okinv H.
+  apply andb_true_iff in C0. destruct C0 as [C0 C0e].
   split; [constructor; prep; useG G |].
   intros Hh' Hc'. assert (Hm : hasm s T) by (unf2; rd; auto). assert (Hc : classic s T) by (classic_back Hc').
   specialize (I Hm Hc). pose proof I as I'. constructor; prep; useGI G I.
